@@ -401,6 +401,9 @@ func (p *Parser) parseCaretBraces() (Revisioner, error) {
 		case tok == word && nextTok == cbrace && (lit == "commit" || lit == "tree" || lit == "blob" || lit == "tag" || lit == "object"):
 			return CaretType{lit}, nil
 		case re == "" && tok == cbrace:
+			// "^{}" is complete; the token read ahead belongs to what follows.
+			p.unscan()
+
 			return CaretType{"tag"}, nil
 		case re == "" && tok == emark && nextTok == emark:
 			re += lit
